@@ -83,3 +83,11 @@ fn canary_pass() {
     assert!(x + 1 <= 100);
     kani::cover!(x == 99, "boundary reached");
 }
+
+pub(crate) mod evsum {
+    include!(concat!(env!("VERIF_HARNESS_DIR"), "/evsum_h.rs"));
+}
+
+pub(crate) mod codec {
+    include!(concat!(env!("VERIF_HARNESS_DIR"), "/codec_h.rs"));
+}
